@@ -116,6 +116,15 @@ func Topo(kind string, shape PathShape, goFunc bool, root string, n int) *spec.S
 		conn("src.out", "A.in")
 		conn("A.out", "B.in")
 		conn("A.res", "C.in")
+	case "longname":
+		// a process name beyond the length up to which the temp directory name contains it (the name is hashed only)
+		long := "Step_" + strings.Repeat("very_long_process_name_", 9) // 212 bytes
+		long = long[:205]
+		addSrc("src", n)
+		addProc(long, in, []string{"out"}, nil, map[string]string{"sleep": "15"}, pk)
+		addProc("B", in, []string{"out"}, nil, nil, spec.KCmd)
+		conn("src.out", long+".in")
+		conn(long+".out", "B.in")
 	case "implicit":
 		// A's only out-port exists through SetOut alone: the command names that file itself (a tool that derives
 		// the name of its result from its input)
